@@ -163,7 +163,9 @@ CLAIMED = {
                   "its posting list. What is decided is the composition of the repository's own client and server code.",
              note="NOT covered: the websockets library, TCP and real event-loop timing - the transport is an in-memory pair that "
                   "delivers frames in order and closes when the handler ends; asyncio is env/aio.py, the file system env/memfs.py. "
-                  "Contents are concrete (pickling realises them); the solver chooses restart point and search order.",
+                  "Contents are concrete (pickling realises them); the solver chooses the restart point, the pace (cleanup delays "
+                  "expired or not; in a separate obligation how many of the pending delays expire before each step), the keyword "
+                  "sequence (two orders, one with repetitions) and whether all searches use one client object.",
              ref="4/C09"),
 }
 
